@@ -667,4 +667,49 @@ theorem step_error_unchanged {x y : Nat} {G : Graph} {op : Op} {e : Err} (h : (s
   · rename_i h'; rw [h'] at h; cases h
   · rfl
 
+
+/-! ### the specification in textbook form: d-separation (moral criterion) in the graph without the arrows leaving `x` -/
+
+/-- `Z` d-separates `x` and `y` in the DAG `E` (Lauritzen–Dawid–Larsen–Leimer): `x` and `y` are disconnected in
+    the moral graph of the sub-DAG induced by `An({x,y} ∪ Z)` after deleting `Z` -/
+def DSepMoral (E : List Edge) (x y : Nat) (Z : List Nat) : Prop :=
+  let A : Nat → Prop := fun v => ∃ n, (n = x ∨ n = y ∨ n ∈ Z) ∧ ReflTransGen (edgeRel E) v n
+  let ed : Nat → Nat → Prop := fun a b => (a, b) ∈ E ∧ A a ∧ A b
+  let adj : Nat → Nat → Prop := fun a b => ed a b ∨ ed b a ∨ (a ≠ b ∧ ∃ c, ed a c ∧ ed b c)
+  ¬ ReflTransGen (fun a b => a ∉ Z ∧ b ∉ Z ∧ adj a b) x y
+
+/-- removing the arrows that leave `x` does not change the ancestral set of a set containing `x` -/
+theorem inAn_mutilated {E : List Edge} {x y : Nat} {Z : List Nat} {v : Nat} :
+    InAn E x y Z v ↔ InAn (E.filter (fun e => e.1 != x)) x y Z v := by
+  constructor
+  · rintro ⟨n, hn, hr⟩
+    have key : ReflTransGen (edgeRel (E.filter (fun e => e.1 != x))) v n ∨
+        ReflTransGen (edgeRel (E.filter (fun e => e.1 != x))) v x := by
+      induction hr using ReflTransGen.head_induction_on with
+      | refl => exact .inl .refl
+      | @head a b hab _ ih =>
+        by_cases ha : a = x
+        · exact .inr (ha ▸ .refl)
+        · have hab' : edgeRel (E.filter (fun e => e.1 != x)) a b :=
+            List.mem_filter.mpr ⟨hab, by simpa using ha⟩
+          rcases ih with h | h
+          · exact .inl (ReflTransGen.head hab' h)
+          · exact .inr (ReflTransGen.head hab' h)
+    rcases key with h | h
+    · exact ⟨n, hn, h⟩
+    · exact ⟨x, .inl rfl, h⟩
+  · rintro ⟨n, hn, hr⟩
+    exact ⟨n, hn, rtg_mono (fun e he => (List.mem_filter.mp he).1) hr⟩
+
+theorem admissible_iff_dsep {E : List Edge} {x y : Nat} {Z : List Nat} :
+    Admissible E x y Z ↔
+      (∀ z ∈ Z, ¬ IsDesc E x z) ∧ DSepMoral (E.filter (fun e => e.1 != x)) x y Z := by
+  have hed : BdEdge E x y Z = fun a b => (a, b) ∈ E.filter (fun e => e.1 != x) ∧
+      InAn (E.filter (fun e => e.1 != x)) x y Z a ∧ InAn (E.filter (fun e => e.1 != x)) x y Z b := by
+    funext a b
+    simp only [BdEdge, List.mem_filter, bne_iff_ne, ne_eq, ← inAn_mutilated (E := E), eq_iff_iff]
+    tauto
+  unfold Admissible DSepMoral MoralMinus MoralAdj
+  simp only [hed, InAn]
+
 end ZV.Dag
